@@ -216,3 +216,15 @@ class GetVolumeShardSpec(Contract):
     def check_raise(self, c, exc, b, cfg):
         from neuroglancer_scripts.sharded_base import ShardedIOError
         c.prove(f"raises-only-ShardedIOError:{type(exc).__name__}", isinstance(exc, ShardedIOError), kind="exc")
+
+
+# ---- native replay adapters (scenario sweeps on the real code, contracts/_native.py)
+
+from . import _native  # noqa: E402
+
+
+def _use(fn):
+    return lambda self, model, cfg, ob_name: fn()
+
+
+ShardedHttpFetchChunk.replay = _use(_native.sharded_http_plumbing_sweep)
